@@ -94,9 +94,10 @@ MAP = {
 GENERATOR = {"noop": "c05_fam_noop", "cast": "c05_fam_cast", "scatter": "c05_fam_scatter", "slices": "c05_fam_slices", "expand": "c05_fam_expand",
              "transpose": "c05_fam_transpose", "unsqueeze": "c05_fam_unsqueeze", "reshape": "c05_fam_reshape", "minmax": "c05_fam_minmax",
              "clip": "c05 (fam_clip)", "padconv": "c05_fam_padconv", "batchnorm": "c05_fam_batchnorm", "convaffine": "c05_fam_convaffine",
-             "hardswish": "c05_fam_hardswish", "matmul": "c05_fam_matmul", "optbias": "c05_fam_optbias", "fusion": "c05_fam_fusion"}
+             "hardswish": "c05_fam_hardswish", "matmul": "c05_fam_matmul", "optbias": "c05_fam_optbias", "fusion": "c05_fam_fusion",
+             "expand-binop (C09)": "c05_fam_expandbinop (oracle; theorems and the model correspondence are C09's)"}
 # exercised by another property's harness (its own check counts them): not counted here
-ELSEWHERE = {"expand-binop (C09)": "harness/c09*.py (./check C09)"}
+ELSEWHERE = {}
 # floor of fired hosts per exported key and tier (a count of 0 is a rule whose theorem no firing host ties to the code)
 FLOOR = {"quick": 1, "thorough": 1}
 
